@@ -2,7 +2,7 @@
 parser (ast + tokenize) under the documented rules — not by mirroring the implementation.
 
 spec(text) -> {"defs": [...], "usages": [...]} or None when CPython rejects the text."""
-import ast, inspect, io, tokenize
+import ast, inspect, io, re, tokenize
 
 SCOPES = ["function", "class", "module", "package", "session"]
 
@@ -134,15 +134,60 @@ def named_params(a):
     return out
 
 
-def string_content_span(text_lines, node):
-    """(line, start, end) byte columns of the characters BETWEEN the quotes of a plain one-line
-    string literal; None for prefixed, triple-quoted, concatenated or multi-line literals"""
-    if node.lineno != node.end_lineno:
+_STR_HEAD = re.compile(r"^([A-Za-z]*)(\'\'\'|\"\"\"|\'|\")")
+
+
+def string_tokens(text):
+    """STRING tokens of the text: (row, byte_col, end_row, end_byte_col, token_text, row, char_col)"""
+    out = []
+    try:
+        for tok in tokenize.generate_tokens(io.StringIO(text).readline):
+            if tok.type == tokenize.STRING:
+                lines = text.split("\n")
+                sl = lines[tok.start[0] - 1] if tok.start[0] - 1 < len(lines) else ""
+                el = lines[tok.end[0] - 1] if tok.end[0] - 1 < len(lines) else ""
+                out.append((tok.start[0], len(sl[:tok.start[1]].encode("utf-8")),
+                            tok.end[0], len(el[:tok.end[1]].encode("utf-8")), tok.string, tok.start[1]))
+    except (tokenize.TokenError, IndentationError, SyntaxError):
         return None
-    line = text_lines[node.lineno - 1].encode("utf-8")
-    seg = line[node.col_offset:node.end_col_offset].decode("utf-8", "replace")
-    if len(seg) >= 2 and seg[0] in "\"'" and seg[-1] == seg[0] and not seg.startswith(seg[0] * 3) and seg[0] not in seg[1:-1]:
-        return (node.lineno, node.col_offset + 1, node.end_col_offset - 1)
+    return out
+
+
+def string_name_span(text_lines, toks, node, vidx, name):
+    """(line, start, end) byte columns of `name`, which stands at index `vidx` of the VALUE of the
+    string literal `node`, in the literal's SOURCE text - derived from the token(s) of the literal:
+    a token whose text between the quotes equals its value (no escape sequence took effect) maps
+    value indices to source columns one to one, whatever its prefix, quotes or line breaks.
+    None when the token holding the name is not transparent in that sense, the name straddles two
+    implicitly concatenated tokens, or the text cannot be tokenized."""
+    if toks is None:
+        return None
+    start, end = (node.lineno, node.col_offset), (node.end_lineno, node.end_col_offset)
+    mine = [t for t in toks if start <= (t[0], t[1]) and (t[2], t[3]) <= end]
+    voff = 0
+    for (row, bcol, erow, ebcol, ts, ccol) in mine:
+        m = _STR_HEAD.match(ts)
+        if not m:
+            return None
+        prefix, quote = m.group(1), m.group(2)
+        try:
+            val = ast.literal_eval(ts)
+        except (SyntaxError, ValueError):
+            return None
+        if not isinstance(val, str):
+            return None
+        body = ts[len(prefix) + len(quote):len(ts) - len(quote)]
+        if voff <= vidx and vidx + len(name) <= voff + len(val):
+            if body != val or "f" in prefix.lower():
+                return None
+            pre = ts[:len(prefix) + len(quote) + (vidx - voff)]
+            nl = pre.count("\n")
+            r = row + nl
+            cc = ccol + len(pre) if nl == 0 else len(pre.rsplit("\n", 1)[1])
+            lt = text_lines[r - 1] if r - 1 < len(text_lines) else ""
+            bs = len(lt[:cc].encode("utf-8"))
+            return (r, bs, bs + len(name.encode("utf-8")))
+        voff += len(val)
     return None
 
 
@@ -152,6 +197,7 @@ def spec(text):
     except (SyntaxError, ValueError, RecursionError):
         return None
     lines = text.split("\n")
+    toks = string_tokens(text)
     defs, usages, notes = [], [], []
 
     def usefixtures_strings(call):
@@ -169,9 +215,13 @@ def spec(text):
             return out
         return []
 
-    def add_string_usage(node, kind):
-        span = string_content_span(lines, node)
-        usages.append({"name": node.value, "line": node.lineno, "span": span, "kind": kind})
+    def add_string_usage(node, kind, name=None, vidx=0):
+        # the usage is reported where the NAME stands in the literal's source text; `lit` is the
+        # literal's own range, for the forms whose source text does not spell the name
+        name = node.value if name is None else name
+        span = string_name_span(lines, toks, node, vidx, name) if name else None
+        usages.append({"name": name, "line": span[0] if span else node.lineno, "span": span, "kind": kind,
+                       "lit": (node.lineno, node.col_offset, node.end_lineno, node.end_col_offset)})
 
     def visit_function(fn):
         decos = fn.decorator_list
@@ -188,8 +238,11 @@ def spec(text):
                     continue
                 names = [x.strip() for x in first.value.split(",")]
                 if isinstance(ind, ast.Constant) and ind.value is True:
-                    for nm in names:
-                        usages.append({"name": nm, "line": first.lineno, "span": None, "kind": "indirect-all"})
+                    at = 0
+                    for part in first.value.split(","):
+                        nm = part.strip()
+                        add_string_usage(first, "indirect-all", nm, at + (len(part) - len(part.lstrip())))
+                        at += len(part) + 1
                 elif isinstance(ind, ast.List):
                     for e in ind.elts:
                         if isinstance(e, ast.Constant) and isinstance(e.value, str) and e.value in names:
